@@ -10,7 +10,13 @@ import (
 	"strings"
 )
 
+var casesFile string
+
 type traceWriter struct {
+	prefix     string
+	cases      int
+	nontrivial map[string]bool
+	samples    []string
 	w      *bufio.Writer
 	traces int
 	lines  int
@@ -55,6 +61,34 @@ func perms(n int) [][]int {
 // through the field events), writing one trace per order
 func (t *traceWriter) emitCase(c *Case, pair string, allOrders bool) []Ret {
 	rets := []Ret{}
+	if t.prefix != "" && !strings.HasPrefix(c.ID, t.prefix) {
+		c.ID = t.prefix + c.ID
+	}
+	t.cases++
+	defer func() {
+		// non-trivial: the call reported an issue or wrote the destination; distinct by schema+input+mode
+		if t.nontrivial == nil {
+			t.nontrivial = map[string]bool{}
+		}
+		for _, r := range rets {
+			wrote := false
+			for _, d := range r.Dest {
+				if d.V != Sentinel && d.V != -1 && d.V != 0 {
+					wrote = true
+				}
+			}
+			if len(r.Issues) > 0 || wrote {
+				cc := *c
+				cc.ID = ""
+				b, _ := json.Marshal(cc)
+				t.nontrivial[string(b)] = true
+				break
+			}
+		}
+		if len(t.samples) < 3 || (t.cases%997 == 0 && len(t.samples) < 8) {
+			t.samples = append(t.samples, fmt.Sprintf("%s %s schema=%s input=%s", c.ID, c.Mode, showNode(c.Schema), showInput(c.Input)))
+		}
+	}()
 	var orders [][]int
 	if c.Schema.K == "struct" && allOrders {
 		orders = perms(len(c.Schema.Kids))
@@ -126,8 +160,10 @@ var commands = map[string]func([]string){}
 func cmdExec(args []string) {
 	fs := flag.NewFlagSet("exec", flag.ExitOnError)
 	family := fs.String("family", "random", "case family")
+	plan := fs.String("plan", "", "comma separated family:n pairs (overrides -family/-n)")
 	seed := fs.Int64("seed", 1, "seed")
 	n := fs.Int("n", 100, "number of cases")
+	fs.StringVar(&casesFile, "cases", "cases.ndjson", "ndjson file of cases (family file)")
 	out := fs.String("out", "trace.ndjson", "output file")
 	fs.StringVar(&universeFile, "universe", "universe.json", "universe description emitted by TLC (family universe)")
 	fs.Parse(args)
@@ -138,25 +174,44 @@ func cmdExec(args []string) {
 	}
 	tw := &traceWriter{w: bufio.NewWriterSize(f, 1<<20)}
 	r := rand.New(rand.NewSource(*seed))
-	fam, ok := families[*family]
-	if !ok {
-		fmt.Fprintln(os.Stderr, "unknown family", *family)
-		os.Exit(2)
+	if *plan == "" {
+		*plan = fmt.Sprintf("%s:%d", *family, *n)
 	}
-	fam(tw, r, *n)
+	perFam := map[string]int{}
+	for _, item := range strings.Split(*plan, ",") {
+		name, cnt, _ := strings.Cut(item, ":")
+		k := 0
+		fmt.Sscanf(cnt, "%d", &k)
+		fam, ok := families[name]
+		if !ok {
+			fmt.Fprintln(os.Stderr, "unknown family", name)
+			os.Exit(2)
+		}
+		before := tw.traces
+		tw.prefix = name + "."
+		fam(tw, r, k)
+		perFam[name] = tw.traces - before
+	}
 	tw.w.Flush()
 	f.Close()
-	st, _ := json.Marshal(map[string]int{"traces": tw.traces, "lines": tw.lines, "orders_forced": tw.forced, "orders_unforced": tw.unforc})
+	st, _ := json.Marshal(map[string]any{"traces": tw.traces, "lines": tw.lines, "orders_forced": tw.forced, "orders_unforced": tw.unforc,
+		"cases": tw.cases, "distinct_nontrivial": len(tw.nontrivial), "per_family": perFam, "samples": tw.samples})
 	fmt.Println(string(st))
 }
 
 var families = map[string]func(*traceWriter, *rand.Rand, int){
 	"random": famRandom,
+	"catch":  famCatch,
 }
 
-func famRandom(tw *traceWriter, r *rand.Rand, n int) {
+func famRandom(tw *traceWriter, r *rand.Rand, n int) { famRandomCfg(tw, r, n, genCfg{}) }
+
+// many catching nodes, beside and below every other kind of node (C05)
+func famCatch(tw *traceWriter, r *rand.Rand, n int) { famRandomCfg(tw, r, n, genCfg{catchPct: 60}) }
+
+func famRandomCfg(tw *traceWriter, r *rand.Rand, n int, g genCfg) {
 	for i := 0; i < n; i++ {
-		g := genCfg{maxDepth: 2 + r.Intn(2)}
+		g.maxDepth = 2 + r.Intn(2)
 		mode := pick(r, []string{"parse", "parse", "validate"})
 		var sch *Node
 		if r.Intn(10) < 8 {
